@@ -224,12 +224,19 @@ def gen_spec(rng, size=None):
     elif rng.random() < 0.01:
         gaps.append([n - 1, 1])       # last sample isolated at the end of the rain record
     gaps.sort()
+    # water level may be logged on a finer grid than rain (load interpolates it onto the rain grid):
+    # k samples per rain step; gaps are then given in units of water-level samples and may begin or
+    # end between two rain grid times
+    k = rng.choice([1, 1, 1, 1, 2, 3])
+    if k > 1:
+        gaps = [[g[0] * k + rng.randrange(k), g[1] * k + rng.randrange(k)] for g in gaps]
     spec = {
         "kind": "synthetic",
         "dt": dt, "s0": s0, "j0": j0, "z0": z0, "z_base": z_base,
         "timezone": rng.choice(TIMEZONES),
         "segments": segments,
         "gaps": gaps,
+        "wl_per_step": k,
         "wl_skip_head": rng.choice([0, 0, 0, 1, 2]),
         "wl_skip_tail": rng.choice([0, 0, 0, 1, 2]),
     }
@@ -263,18 +270,79 @@ def render(spec):
     e_lines = ["datetime,evapotranspiration (mm/h)"]
     for i in range(-1, n + 2):
         e_lines.append("%s,%r" % (stamp(i), 0.0125 + 0.001 * (i % 7)))
+    k = spec.get("wl_per_step", 1)
+    z_lines = ["datetime,wtd (mm)"]
+    for f in kept_samples(spec):
+        i, j = divmod(f, k)
+        if j == 0:
+            value = zeta[i]
+        else:
+            value = _r3(zeta[i] + (zeta[i + 1] - zeta[i]) * j / float(k))
+        when = (T0 + datetime.timedelta(seconds=f * (dt // k))).strftime(fmt)
+        z_lines.append("%s,%r" % (when, value))
+    return ("\n".join(p_lines) + "\n", "\n".join(e_lines) + "\n", "\n".join(z_lines) + "\n")
+
+
+def kept_samples(spec):
+    """Indices (in water-level sample units: k per rain step) of the samples in
+    the water-level file.  The first and the last retained sample are never
+    dropped (they define the record)."""
+    rain, _ = spec_arrays(spec)
+    n = len(rain)
+    k = spec.get("wl_per_step", 1)
     missing = set()
     for start, count in spec["gaps"]:
         for i in range(start, start + count):
             missing.add(i)
     lo = spec.get("wl_skip_head", 0)
-    hi = n + 1 - spec.get("wl_skip_tail", 0)
-    # never drop the first or the last retained sample (they define the record)
-    z_lines = ["datetime,wtd (mm)"]
-    kept = [i for i in range(lo, hi) if i not in missing or i in (lo, hi - 1)]
-    for i in kept:
-        z_lines.append("%s,%r" % (stamp(i), zeta[i]))
-    return ("\n".join(p_lines) + "\n", "\n".join(e_lines) + "\n", "\n".join(z_lines) + "\n")
+    hi = k * n + 1 - spec.get("wl_skip_tail", 0)
+    return [f for f in range(lo, hi) if f not in missing or f in (lo, hi - 1)]
+
+
+def spec_stretch_sizes(spec):
+    """How many (rain, water level) samples each gap-free stretch of the SOURCE
+    record holds, by the documented semantics of load and independently of
+    load's code: a stretch is a maximal run of consecutive water-level samples;
+    it owns the rain grid times between its first and last sample (the first
+    stretch starts at the first grid time, the last one also owns the closing
+    grid time, which carries no rain value).  Returns a list of counts, one per
+    stretch that owns at least one grid time."""
+    rain, _ = spec_arrays(spec)
+    n = len(rain)
+    k = spec.get("wl_per_step", 1)
+    kept = kept_samples(spec)
+    if len(kept) < 2:
+        return []
+    stretches = [[kept[0], kept[0]]]
+    for f in kept[1:]:
+        if f == stretches[-1][1] + 1:
+            stretches[-1][1] = f
+        else:
+            stretches.append([f, f])
+    # rain grid times inside the water-level record, plus the closing one
+    first_i = -(-kept[0] // k)
+    last_i = min(kept[-1] // k, n - 1)
+    grid = list(range(first_i, last_i + 1)) + [last_i + 1]
+    sizes = []
+    for idx, (fa, fb) in enumerate(stretches):
+        lo_t = grid[0] * k if idx == 0 else fa
+        hi_t = grid[-1] * k if idx == len(stretches) - 1 else fb
+        owned = [i for i in grid if lo_t <= i * k <= hi_t]
+        if owned:
+            sizes.append(sum(1 for i in owned if i <= last_i))
+    return sizes
+
+
+def spec_degenerate_classes(spec):
+    """Input classes 'one_sample_stretch' / 'zero_sample_stretch' as properties
+    of the source files (not of what load made of them)."""
+    out = set()
+    for size in spec_stretch_sizes(spec):
+        if size == 0:
+            out.add("zero_sample_stretch")
+        elif size == 1:
+            out.add("one_sample_stretch")
+    return sorted(out)
 
 
 def write_inputs(spec, directory):
@@ -306,8 +374,8 @@ def describe(spec):
         return "field:%d" % spec["sample"]
     rain, _ = spec_arrays(spec)
     kinds = [s["kind"] for s in spec["segments"] if s["kind"] not in ("dry", "tail")]
-    return "synthetic n=%d dt=%d gaps=%d events=%s" % (
-        len(rain), spec["dt"], len(spec["gaps"]), ",".join(kinds))
+    return "synthetic n=%d dt=%d wl_per_step=%d gaps=%d events=%s" % (
+        len(rain), spec["dt"], spec.get("wl_per_step", 1), len(spec["gaps"]), ",".join(kinds))
 
 
 # ---------------------------------------------------------------------------
